@@ -83,7 +83,9 @@ Record HT (T : N) (pre : list event) (c : crec) : Prop := {
   t_fb : cn c FFb <> 0 -> fb_reason pre T;
   t_minc2 : cn c FMinc <> 0 -> has_minc pre T (cn c FMinc);
   t_primlk : forall p ms, In (EMutations T p ms) pre -> In p (lock_keys ms);
-  t_fb1 : cn c FFb1 <> 0 -> fb1_reason pre T }.
+  t_fb1 : cn c FFb1 <> 0 -> fb1_reason pre T;
+  t_fbc1 : forall r p ks o m f secs, In (EPwSend r T p ks false o m f secs) pre -> cn c FFb <> 0;
+  t_fbc2 : forall r ks o, In (EPwReply r T ks (PwOk 0 o)) pre -> cn c FFb <> 0 }.
 
 Lemma fb_true c f : fb c f = true <-> cn c f <> 0.
 Proof. unfold fb. rewrite negb_true_iff, N.eqb_neq. tauto. Qed.
@@ -135,7 +137,7 @@ Ltac snoc_other H Hne :=
 
 Lemma HT_frame T pre c e : txn_ev e <> Some T -> HT T pre c -> HT T (pre ++ [e]) c.
 Proof.
-  intros Hne [C1 C2 C3 C4 C5 C6 C7 C8 C9 C10 C11 C12 C13 C14 C15 C16 C17 C18 C19 C20 C21 C22 C23 C24 C25 C26].
+  intros Hne [C1 C2 C3 C4 C5 C6 C7 C8 C9 C10 C11 C12 C13 C14 C15 C16 C17 C18 C19 C20 C21 C22 C23 C24 C25 C26 C27 C28].
   constructor; auto.
   - intros p ms H. snoc_other H Hne. eauto.
   - intros Hh H0 r C ks H. snoc_other H Hne. eauto.
@@ -158,6 +160,8 @@ Proof.
   - intros k. rewrite sum_of_snoc, notT_send_occ, Nat.add_0_r; auto.
   - intros k. rewrite sum_of_snoc, notT_negreply_occ, Nat.add_0_r; auto.
   - intros p ms H. snoc_other H Hne. eauto.
+  - intros r p ks o m f secs H. snoc_other H Hne. eauto.
+  - intros r ks o H. snoc_other H Hne. eauto.
 Qed.
 
 (* ---- changes of fields the invariant does not read ---- *)
@@ -180,7 +184,7 @@ Qed.
 
 Lemma HT_untracked T pre c c' : tr_same c c' -> HT T pre c -> HT T pre c'.
 Proof.
-  intros (E & Elm & Epw & Eks & Ekn & Ed) [C1 C2 C3 C4 C5 C6 C7 C8 C9 C10 C11 C12 C13 C14 C15 C16 C17 C18 C19 C20 C21 C22 C23 C24 C25 C26].
+  intros (E & Elm & Epw & Eks & Ekn & Ed) [C1 C2 C3 C4 C5 C6 C7 C8 C9 C10 C11 C12 C13 C14 C15 C16 C17 C18 C19 C20 C21 C22 C23 C24 C25 C26 C27 C28].
   constructor; rewrite ?Elm, ?Epw;
     repeat match goal with |- context [cn c' ?f] =>
              lazymatch f with FDead => fail | _ => rewrite (E f eq_refl) end end; auto.
